@@ -50,6 +50,13 @@ CHECKS["C14"] = dict(
     note="Trusted: tokio's paused clock (1 ms wheel). All time-outs carry a sub-millisecond fraction (DESIGN.md 3.2); durations within 3 ms of a limit are undecided.",
 )
 
+CHECKS["C17"] = dict(
+    level="exploration",
+    text="Seeded search over requests and origin behaviours (interim responses, four body framings, hop-by-hop headers) under segmentation of the origin's byte stream and client back-pressure, through the real forwarded-stream state machines; a strict origin parser checks the forwarded request, a reference de-chunker the delivered body.",
+    design="DESIGN.md section 8 (C17)",
+    note="Trusted: the origin/client reference parsers, the h2 client. Two known findings are listed in known_findings.json. HTTP/3 not simulated.",
+)
+
 NOT_YET = {
 }
 
